@@ -16,6 +16,8 @@ CONSTANTS MaxPause, MaxCancel, MaxSteps, MaxRerun,
           Own,          \* property ids whose clauses count, e.g. {"C01","C07"}
           KnownSigs     \* signatures of known findings (Deviations = AsCode): reported, descent stops, no violation
 
+Intended == {}                          \* Deviations <- Intended : the design with the open findings repaired
+
 VARIABLES di, S, acts, accs, rendered, bud, h, bad, sched, lastobs
 vars == <<di, S, acts, accs, rendered, bud, h, bad, sched, lastobs>>
 
